@@ -99,6 +99,7 @@ extern int  ANIanncmp(void *i, void *j, int value);
 static int ANIstart(void);
 /* private destroy routine */
 static int ANIdestroy(void);
+static int ANIcreate_ann_tree(int32 an_id, ann_type type);
 
 /*-----------------------------------------------------------------------------
  *                          Internal Routines
@@ -308,13 +309,11 @@ ANIaddentry(int32    an_id, /* IN: annotation interface id */
     if (BADFREC(file_rec))
         HGOTO_ERROR(DFE_ARGS, FAIL);
 
-    /* Check for empty annotation tree of 'type'? */
+    /* No annotation tree of 'type' yet? Build it from the annotations the file
+       already holds, otherwise they stay invisible for the rest of the session */
     if (file_rec->an_num[type] == -1) {
-        if ((file_rec->an_tree[type] = (TBBT_TREE *)tbbtdmake(ANIanncmp, sizeof(int32), 0)) == NULL) {
+        if (ANIcreate_ann_tree(an_id, type) == FAIL)
             HE_REPORT_GOTO("failed to create annotation tree", FAIL);
-        }
-
-        file_rec->an_num[type] = 0;
     }
 
     /* Which type of annotation file/data label or desc? */
